@@ -158,9 +158,17 @@ class SSHForwarder(asyncio.BaseProtocol):
         self._eof_received = True
 
         if self._peer:
-            self._peer.write_eof()
+            peer = self._peer
+            peer.write_eof()
 
-            return not self._peer.was_eof_received()
+            if peer.was_eof_received():
+                # Both directions are finished. A socket transport closes
+                # itself when False is returned here, but a channel does
+                # not, so close explicitly
+                self.close()
+                return False
+
+            return True
         else:
             return True
 
